@@ -42,7 +42,7 @@ package criteria_omission
 
 // the bias takes ordering and split condition exactly as the shared parsers give them (no defaults of its own)
 //@ func parseProps
-//@   property C15 C20
+//@   property C15 C20 C01 C07 C09
 //@   ensures [ordering_as_requested] result0 != nil && result0.Ordering == (decoded_has(*props, "Ordering") ? decoded_str(*props, "Ordering") : "")
 //@   ensures [split_as_requested] result1 != nil && result1.Ratio == (decoded_has(*props, "Ratio") ? decoded_real(*props, "Ratio") : 0.0)
 //@             && result1.Min == (decoded_has(*props, "Min") ? decoded_int(*props, "Min") : 0)
@@ -59,6 +59,7 @@ package criteria_omission
 //@ wire CriteriaOmissionResult
 //@   property C01 C15 C20
 //@   json OmittedCriteria=omittedCriteria
+//@   gotypes OmittedCriteria=model.Criteria
 
 // ---- registered names (what a request must say to select this object; what error messages list)
 //@ func (*CriteriaOmission).Identifier
